@@ -88,7 +88,7 @@ class Harness:
         return (m._state.value, None if c is None else (c.cluster_id, c.cardinality, rel(c.breakup_started), tuple(sorted(c.pending_members))),
                 m._joined_cluster_id, m._leader_station_id, rel(m._last_leader_vam_time), m._join_substate.value, m._join_target_cluster_id, rel(m._join_started),
                 rel(m._join_leave_started), m._leave_substate.value, rel(m._leave_started), tuple(sorted((k, rel(v.last_seen)) for k, v in m._nearby_vrus.items())),
-                tuple(sorted((k, rel(v.last_seen)) for k, v in m._nearby_clusters.items())), rel(self.join_t), rel(self.leave_t), rel(self.breakup_t), rel(self.last_leader_rx), self.breakup_from_leader)
+                tuple(sorted((k, rel(v.last_seen)) for k, v in m._nearby_clusters.items())), rel(self.join_t), (None if self.leave_t is None else (rel(self.leave_t) if self.now - self.leave_t < 1.002 else "old")), rel(self.breakup_t), rel(self.last_leader_rx), self.breakup_from_leader)
 
     def apply(self, ev):
         """Apply one event; returns list of violations."""
@@ -203,14 +203,15 @@ class Harness:
                     vs.append(violation(ID, "C18/join-notification-too-long", "%.3f s after initiate_join the VAM still carries clusterJoinInfo" % el))
                 if el >= 3.0 + 1e-3:
                     self.join_t = None
-            if s is VBSState.VRU_ACTIVE_STANDALONE and self.leave_t is not None and self.join_t is None and m._join_substate.value == "none":
+            if self.leave_t is not None:
                 el = self.now - self.leave_t
-                if el < 1.0 - 1e-3 and "clusterLeaveInfo" not in op:
+                js = m._join_substate.value
+                if el < 1.0 - 1e-3 and s is VBSState.VRU_ACTIVE_STANDALONE and self.join_t is None and js == "none" and "clusterLeaveInfo" not in op:
                     vs.append(violation(ID, "C18/leave-notification-too-short", "%.3f s after leaving the cluster the operation container is %r" % (el, op)))
-                if el >= 1.0 + 1e-3 and "clusterLeaveInfo" in op:
-                    vs.append(violation(ID, "C18/leave-notification-too-long", "%.3f s after leaving the cluster the VAM still carries clusterLeaveInfo" % el))
-                if el >= 1.0 + 1e-3:
-                    self.leave_t = None
+                # the notification of THAT leave ends after timeClusterLeaveNotification whatever else the station does meanwhile (a join that
+                # was cancelled or failed produces a leave notification of its own, which is not judged here)
+                if el >= 1.0 + 1e-3 and "clusterLeaveInfo" in op and js not in ("cancelled", "failed"):
+                    vs.append(violation(ID, "C18/leave-notification-too-long", "%.3f s after leaving the cluster the VAM still carries clusterLeaveInfo (state %s, join substate %s)" % (el, s.value, js)))
             if self.breakup_t is not None:
                 el = self.now - self.breakup_t
                 if el >= 3.0 + 1e-3 and s is VBSState.VRU_ACTIVE_CLUSTER_LEADER:
@@ -283,7 +284,12 @@ def seq_s():
     ev = st.sampled_from(ALPHABET + [CPM]).map(list)
     scen = st.just([["join", 7], ["step", 3.1], ["update"], ["rx_cluster", LEADER, 7]])
     scen2 = st.just([["create_enough"], ["rx_join_own"]])
-    return st.lists(st.one_of(ev.map(lambda e: [e]), ev.map(lambda e: [e]), ev.map(lambda e: [e]), scen, scen2), min_size=1, max_size=40).map(lambda ll: {"events": [x for l in ll for x in l][:80]})
+    # member of cluster 7 leaves and starts joining again while the leave notification is still running
+    scen3 = st.tuples(st.sampled_from([["leave", "notProvided"], ["leave", "safetyCondition"], ["step", 2.0], ["rx_breakup", LEADER, "clusterDisbandedByLeader"]]),
+                      st.sampled_from([0.05, 0.5]), st.sampled_from([1.0, 3.1])).map(
+        lambda t: [["join", 7], ["step", 3.1], ["update"], ["rx_cluster", LEADER, 7], t[0], ["update"], ["step", t[1]], ["join", 7], ["step", t[2]], ["update"], ["step", 3.1], ["update"],
+                   ["rx_cluster", LEADER, 7], ["update"]])
+    return st.lists(st.one_of(ev.map(lambda e: [e]), ev.map(lambda e: [e]), ev.map(lambda e: [e]), scen, scen2, scen3), min_size=1, max_size=40).map(lambda ll: {"events": [x for l in ll for x in l][:80]})
 
 
 def run_seq_case(case):
